@@ -28,3 +28,8 @@ dsl.share('C15', ['translated_%s' % n for n in ('Line', 'QuadraticBezier', 'Cubi
 dsl.share('C05', ['path_reversed_of_a_path_with_warm_caches_is_a_consistent_path',
                   'path_cropped_returns_a_consistent_path_whatever_was_cached',
                   'path_ops_return_a_consistent_path_whatever_was_cached'])
+# smoothed_joint takes the directions in which the elbow must leave and arrive from
+# seg.unit_tangent(1) / unit_tangent(0) - also where a cubic's end control points coincide and the
+# tangent is a limit.  C20's kink-freeness is relative to those values: checked by its command too.
+dsl.share('C20', ['unit_tangent_at_a_start_with_coincident_control_points_%s' % n for n in ('QuadraticBezier', 'CubicBezier')] +
+          ['unit_tangent_at_an_end_with_coincident_control_points_%s' % n for n in ('QuadraticBezier', 'CubicBezier')])
